@@ -267,7 +267,49 @@ def rule_no_race(ctx):
                   bad_what="the search thread captures references / raw pointers: %s" % tys)
 
 
-RULES = [("sources", rule_sources), ("hash-order", rule_hash_order), ("seed", rule_seed), ("statics", rule_statics), ("fresh", rule_fresh),
+def rule_default_limits(ctx):
+    """A search that was given no limits has none: `SearchLimits::new()` and `SearchLimits::default()` (what `Search::new(board,
+    None)` and the bench fall back to) leave every limit empty.  A default node or time budget would make the depth-limited
+    bench depend on the machine."""
+    from . import cases
+    ix = ctx.ix
+    adt = ix.adts.get("search::limits::SearchLimits")
+    fields = [f["name"] for f in adt["variants"][0]["fields"]] if adt else []
+    ctx.check(len(fields) >= 7, "SearchLimits:fields", "SearchLimits has its limit fields (%d)" % len(fields), None, bad_what="cannot read the fields of SearchLimits")
+    for key in ("search::limits::SearchLimits::new", "<search::limits::SearchLimits as std::default::Default>::default"):
+        b = ctx.body(key)
+        run = cases.run(ix, b, {})
+        rets = [p for p in run.paths if p.end == "return"]
+        bad = None
+        if run.overflow or len(rets) != 1 or any(p.end not in ("return", "panic", "unreachable") for p in run.paths):
+            bad = "cannot walk the constructor to a single result"
+        else:
+            r = mir.strip_copies(rets[0].ret)
+            if r[0] == "call" and r[1] == "search::limits::SearchLimits::new" and not r[2]:
+                r = None   # default() = new(), decided above
+            if r is not None:
+                if r[0] != "agg" or not str(r[1]).endswith("SearchLimits"):
+                    bad = "returns `%s`" % expr_str(r)[:80]
+                else:
+                    names = r[4] if len(r) > 4 and r[4] else fields
+                    for n, v in zip(names, r[3]):
+                        v = mir.strip_copies(v)
+                        none = (v[0] == "agg" and str(v[1]).endswith("Option") and v[2] == "None") or \
+                               (v[0] == "call" and v[1].startswith("<std::option::Option<T> as std::default::Default>::default"))
+                        if not none:
+                            bad = "%s starts as `%s`" % (n, expr_str(v)[:60])
+                    if len(r[3]) != len(fields):
+                        bad = bad or "the result does not set all %d fields" % len(fields)
+        ctx.check(bad is None, "%s:no-limit-by-default" % key.split("::")[-1].replace(">", ""), "%s() leaves every limit of SearchLimits empty" % C.short(key), b.where(0),
+                  bad_what="%s: %s -- a search given no limits is then stopped by a budget, and how far it gets depends on the machine" % (C.short(key), bad))
+    # Search::new falls back to exactly that
+    sn = ctx.body("search::Search::new")
+    uses = [strip_generics(t.get("callee") or "") for bi, t in sn.calls() if "unwrap_or" in (t.get("callee") or "")]
+    ctx.check(any(u.endswith("Option::unwrap_or_default") for u in uses) or any(u.endswith("Option::unwrap_or_else") for u in uses), "Search::new:falls-back-to-default", "Search::new(board, None) uses the default limits", sn.where(0),
+              bad_what="Search::new does not fall back to SearchLimits::default() when given no limits (found %s)" % uses)
+
+
+RULES = [("default-limits", rule_default_limits), ("sources", rule_sources), ("hash-order", rule_hash_order), ("seed", rule_seed), ("statics", rule_statics), ("fresh", rule_fresh),
          ("bench-clear", rule_bench_clear), ("no-race", rule_no_race)]
 
 
